@@ -400,6 +400,9 @@ func namedPath(t types.Type) string {
 
 type unsupported struct{ msg string }
 
+// valueStructs: struct types whose VALUES are modelled as references to a private object (see sortOf).
+var valueStructs = map[string]bool{"github.com/hyperjumptech/grule-rule-engine/pkg.GruleJSON": true}
+
 func unsup(format string, a ...interface{}) { panic(unsupported{fmt.Sprintf(format, a...)}) }
 
 func (w *World) sortOf(t types.Type, bv bool) Sort {
@@ -442,6 +445,11 @@ func (w *World) sortOf(t types.Type, bv bool) Sort {
 	case *types.Array:
 		return w.sliceSort(w.sortOf(u.Elem(), bv))
 	case *types.Struct:
+		if valueStructs[namedPath(t)] {
+			// decode-target structs: a value is modelled as a reference to its own object (the functions under contract only
+			// declare one, take its address, pass it to a decoder and read its fields - they never copy one)
+			return SInt
+		}
 		unsup("struct value of type %s", t.String())
 	case *types.Tuple:
 		unsup("tuple sort")
